@@ -212,7 +212,13 @@ type HostSpec struct {
 	Handlers []HandlerSpec  `json:"handlers,omitempty"`
 	Scheds   []Sched        `json:"scheds,omitempty"`
 	Probes   bool           `json:"probes,omitempty"`
-	Seed     string         `json:"seed"`
+	// Overrides: the host registers its own functions under the names of built-ins (visited, visited_count,
+	// round, string): what a host registered stays registered, whatever the runner does later
+	Overrides bool `json:"overrides,omitempty"`
+	// Reentrant: a handler that the runner calls synchronously (raw commands, converted handlers returning a
+	// channel) registers one more command and one more function on its runner while it runs
+	Reentrant bool   `json:"reentrant,omitempty"`
+	Seed      string `json:"seed"`
 }
 
 type World struct {
@@ -432,6 +438,24 @@ func (h *Host) register() {
 		}))
 		must(h.dr.ConvertAndAddFunction("pfail", func(x float64) (float64, error) { h.call("fn", "pfail", x); return 0, hostError(int(x)) }))
 	}
+	if h.spec.Overrides {
+		h.dr.AddFunction("visited_count", func(args []*variable.Value) (*variable.Value, error) {
+			h.call("fn", "host_visited_count")
+			return variable.NewNumber(42), nil
+		})
+		h.dr.AddFunction("visited", func(args []*variable.Value) (*variable.Value, error) {
+			h.call("fn", "host_visited")
+			return variable.NewBoolean(true), nil
+		})
+		h.dr.AddFunction("round", func(args []*variable.Value) (*variable.Value, error) {
+			h.call("fn", "host_round")
+			return variable.NewNumber(-7), nil
+		})
+		h.dr.AddFunction("string", func(args []*variable.Value) (*variable.Value, error) {
+			h.call("fn", "host_string")
+			return variable.NewString("hs"), nil
+		})
+	}
 	for _, hs := range h.spec.Handlers {
 		h.registerHandler(hs)
 	}
@@ -562,6 +586,7 @@ func (h *Host) registerHandler(hs HandlerSpec) {
 	case "raw_prefilled":
 		h.dr.AddCommand(hs.Name, func(args []*variable.Value) <-chan error {
 			inv := h.newInv(hs.Name, rawArgs(args))
+			h.reenter(inv)
 			inv.Sched.Immediate = true
 			inv.released = true
 			ch := make(chan error, 1)
@@ -571,6 +596,7 @@ func (h *Host) registerHandler(hs HandlerSpec) {
 	case "raw_buffered":
 		h.dr.AddCommand(hs.Name, func(args []*variable.Value) <-chan error {
 			inv := h.newInv(hs.Name, rawArgs(args))
+			h.reenter(inv)
 			inv.ch = make(chan error, 1)
 			if inv.Sched.Immediate {
 				inv.released = true
@@ -581,6 +607,7 @@ func (h *Host) registerHandler(hs HandlerSpec) {
 	case "raw_unbuffered":
 		h.dr.AddCommand(hs.Name, func(args []*variable.Value) <-chan error {
 			inv := h.newInv(hs.Name, rawArgs(args))
+			h.reenter(inv)
 			inv.gate = make(chan error, 1)
 			if inv.Sched.Immediate {
 				if h.freeRunning {
@@ -685,6 +712,7 @@ func (h *Host) registerHandler(hs HandlerSpec) {
 				c <- nil
 				return []reflect.Value{reflect.ValueOf(c)}
 			default:
+				h.reenter(inv)
 				inv.ch = make(chan error, 1)
 				if inv.Sched.Immediate {
 					inv.released = true
@@ -712,6 +740,20 @@ type hostErrT struct{ msg string }
 func (e *hostErrT) Error() string { return e.msg }
 
 func oddShape(shape string) bool { return shape == "conv_sendchan" || shape == "conv_errtypechan" }
+
+// reenter: called from handlers that run on the runner's own goroutine.
+func (h *Host) reenter(inv *Inv) {
+	if !h.spec.Reentrant || h.dr == nil {
+		return
+	}
+	name := fmt.Sprintf("reg%d", inv.Index)
+	h.dr.AddCommand(name, func(args []*variable.Value) <-chan error {
+		ch := make(chan error, 1)
+		ch <- nil
+		return ch
+	})
+	h.dr.AddFunction(name, func(args []*variable.Value) (*variable.Value, error) { return variable.NewNumber(0), nil })
+}
 
 // Release completes invocation i (the host's decision, taken by the plan).
 func (h *Host) Release(i int, failed bool) bool {
